@@ -18,17 +18,19 @@ Trace == ndJsonDeserialize("trace_curves.ndjson")
 VARIABLES e, judged
 tvars == <<e, judged, cv, done>>
 
-Q(ev) == IF ev.cv.type = "arc" THEN (IF ev.cv.shape = "chordrx" THEN 32 ELSE ArcQ(ev.cv.shape)) ELSE QB
+Q(ev) == IF ev.cv.type = "chain" THEN QCH ELSE IF ev.cv.type = "arc" THEN (IF ev.cv.shape = "chordrx" THEN 32 ELSE ArcQ(ev.cv.shape)) ELSE QB
 SclPt(p, q) == <<q * p[1], q * p[2]>>
 \* way-points in Q units
 WPof(ev) == CASE ev.cv.type = "quad"  -> QuadWP(ev.cv.pts)
               [] ev.cv.type = "cubic" -> CubeWP(ev.cv.pts)
+              [] ev.cv.type = "chain" -> ChainWP(ev.cv)
               [] ev.cv.type = "arc" /\ ev.cv.shape = "chordrx" -> (IF ev.cv.ccw THEN << <<0,0>>, <<R * 32, 0>> >> ELSE << <<R * 32, 0>>, <<0,0>> >>)
               [] OTHER -> LET w == ArcWPu(ev.cv) IN [j \in 1..Len(w) |-> SclPt(w[j], Q(ev))]
 \* sagitta of the 60 degree arc: R - sqrt(3/4) R
 ChordRxGap == R * 32 - ISqrtLo((3 * (R * 32) * (R * 32)) \div 4) + 1
 GapOf(ev) == CASE ev.cv.type = "quad"  -> QuadGap(ev.cv.pts)
                [] ev.cv.type = "cubic" -> CubeGap(ev.cv.pts)
+               [] ev.cv.type = "chain" -> ChainGap(ev.cv)
                [] ev.cv.type = "arc" /\ ev.cv.shape = "chordrx" -> ChordRxGap
                [] OTHER -> ArcGap(ev.cv.shape)
 NSub(ev) == IF ev.pre THEN 2 ELSE 1
